@@ -60,7 +60,7 @@ MARKER_PROOF_TRUST = [
 ]
 
 
-def marker_runner(oracle, quick, thorough, rule, explanation, smark_pairs=None, proof=None, only_rate=0.3):
+def marker_runner(oracle, quick, thorough, rule, explanation, smark_pairs=None, proof=None, only_rate=0.3, n_parse=None):
     def run(ctx: Ctx):
         ctx.level = "other"
         ctx.trusted_base = MARKER_TRUST
@@ -77,7 +77,8 @@ def marker_runner(oracle, quick, thorough, rule, explanation, smark_pairs=None, 
             if not ok:
                 ctx.broke("proof", "Model/Marker.v / Model/CorrMarker.v do not build", log[-1500:])
             else:
-                smark.stream_smark(ctx, smark_pairs if ctx.tier == "quick" else smark_pairs * 12, only_rate=only_rate)
+                smark.stream_smark(ctx, smark_pairs if ctx.tier == "quick" else smark_pairs * 12, only_rate=only_rate,
+                                   n_parse=(n_parse if ctx.tier == "quick" else n_parse * 8) if n_parse else None)
         oracle(ctx, _n(ctx, quick, thorough))
         ctx.coverage["rule"] = rule
     return run
@@ -97,7 +98,7 @@ REGISTRY.update({
     "C03": marker_runner(pm.oracle_c03, 700, 10000, GEN_RULE,
                          "theorem C03_parse: the marker _build_markers returns evaluates, in every environment, as packaging's _evaluate_markers fold (pkg_eval, verbatim) of the parsed tree, provided atoms evaluate alike; "
                          "atom evaluation is the model parameter atom_eval (strings / extras / reversed operands modelled and compared by MCEval cases; version-like atoms a table) and is compared with packaging by the direct oracle",
-                         smark_pairs=60, proof=("Props/C03.v", ["C03_parse", "pkg_eval_peval"])),
+                         smark_pairs=60, proof=("Props/C03.v", ["C03_parse", "pkg_eval_peval"]), n_parse=250),
     "C07": marker_runner(pm.oracle_c07, 300, 5000, GEN_RULE, PENDING),
     "C10": marker_runner(pm.oracle_c10, 250, 4000, "random histories of parse/&/| over key-equal spelling families followed by a probe; warm result vs result after cache_clear()", PENDING),
     "C11_old": marker_runner(lambda ctx, n: pm.oracle_c11(ctx), 0, 0, "every operator x operand length x variable atom, every simple specifier as from_specifier input, interpreters X.Y.Z on a grid around the operands", PENDING),
